@@ -156,6 +156,17 @@ pub fn gen(tier: &str, seed: u64, out: &mut dyn FnMut(Value)) {
             out(json!({"op": "xpath_pair", "a": p, "b": q, "tag": "pair: one character apart", "nt": true}));
         }
     }
+    // the same segments spelled with the quotes elsewhere: equal segment lists, equal text lengths, different texts
+    // (paths are equal exactly when their texts are)
+    for segs in [vec!["data", "exe"], vec!["a", "b", "c"], vec!["x", "y"], vec!["ab", "cd", "ef", "gh"], vec!["n0", "n1"]] {
+        let k = segs.len();
+        let spell = |m: u32| -> String { segs.iter().enumerate().map(|(i, s)| if m & (1 << i) != 0 { format!(".\"{s}\"") } else { format!(".{s}") }).collect() };
+        for m1 in 0..(1u32 << k) {
+            for m2 in 0..(1u32 << k) {
+                out(json!({"op": "xpath_pair", "a": spell(m1), "b": spell(m2), "tag": "pair: same segments, quotes elsewhere", "nt": true}));
+            }
+        }
+    }
     // the segments a path spells are what a rule's field test looks up: scans against events served by derived
     // getters (maps with dotted and padded keys, nested structs, aliases)
     crate::props::engine::gen_derived(&mut rng, if tier == "thorough" { 5000 } else { 500 }, "lookups through derived getters", out);
